@@ -566,7 +566,7 @@ var Prop = &harness.Prop{
 			}
 			u = append(u, cryptUnit(1000, 1040, 1))
 		}
-		u = append(u, decFaultUnit(), manyEmptyReadsUnit())
+		u = append(u, decFaultUnit(), manyEmptyReadsUnit(), consumptionModesUnit())
 		return u
 	},
 }
